@@ -73,4 +73,38 @@ WithScaleOK(a, t, r) ==
 WithPrecOK(a, p, r) ==
   IF p >= Digits(a) THEN RepIs(r, Rescale(a, a.sc + (p - Digits(a))))
   ELSE ValIs(r, RoundToPrec(a, p, "HalfUp"))
+
+\* ---------------------------------------------------------------- C06: rounding to a scale
+\* the mechanism-level result, cross-checked against the declarative relation on the same input
+\* (a disagreement between the two would be an inconsistency of the specification, not of the code)
+RoundedOrInconsistent(a, t, m) ==
+  LET x == RoundToScale(a, t, m) IN IF IsRoundedTo(a, t, m, x) THEN x ELSE Assert(FALSE, <<"spec inconsistent: M vs D", a, t, m>>)
+WithScaleRoundOK(a, t, m, r) == RepIs(r, RoundedOrInconsistent(a, t, m))
+RoundPairOK(m, sign, lhs, rhs, tz, r) == IntIs(r, RoundPair(m, sign = -1, lhs, rhs, tz))
+\* round_u32(at, sign, value, tz): value rounded to a multiple of 10^at; tz = "nothing non-zero beyond value"
+RoundU32OK(m, at, sign, value, tz, r) ==
+  LET dg == value.m
+      up == RoundAway(m, sign = -1, At(dg, at + 1) % 2 = 1, At(dg, at), tz /\ LowAllZero(dg, at - 1))
+      q == IF up THEN NAdd(Shr(dg, at), One) ELSE Shr(dg, at)
+  IN BigIs(r, ZMk(1, Shl(q, at)))
+
+\* ---------------------------------------------------------------- C07: rounding to a precision
+WithPrecisionRoundOK(a, p, m, r) ==
+  IF p >= Digits(a) THEN RepIs(r, Rescale(a, PrecScale(a, p)))
+  ELSE ValIs(r, RoundedOrInconsistent(a, PrecScale(a, p), m))
+\* precision / scale at the 64-bit guards: the documented panic is the only alternative to the right answer
+WithPrecisionRoundWideOK(aw, P, m, r) ==
+  LET dg == MaxI(1, Len(aw.d))
+      ns == ZAdd(aw.z, ZSub(P, ZOfInt(dg)))
+  IN IF ~FitsI64(P) \/ ~FitsI64(ns) THEN Chk(IsPanic(r), "expected-precision-overflow-panic")
+     ELSE IF ~ZSmall(ZSub(P, ZOfInt(dg))) THEN Bad("unsupported-by-spec")
+     ELSE LET rel == ZToInt(ZSub(P, ZOfInt(dg)))
+              r0 == RoundToScale(Mk(aw.s, aw.d, 0), rel, m)
+          IN IF ~IsD(r) THEN Bad("outcome-kind")
+             ELSE LET rw == WOf(r.d) IN
+                  IF rel >= 0 THEN Chk(rw = WMk(r0.s, r0.d, ns), "representation")
+                  ELSE Chk(WValEq(rw, WMk(r0.s, r0.d, ns)), "value")
+CtxAddOK(a, b, p, m, r) == LET sum == DAdd(a, b) IN ValIs(r, RoundToPrec(sum, p, m))
+CtxIs(r, p, m) == IF "ctx" \notin DOMAIN r THEN Bad("outcome-kind")
+                  ELSE Chk(r.ctx.precision = p /\ r.ctx.mode = m, "context")
 =============================================================================
